@@ -106,6 +106,11 @@ def enumerate_cases(tier: str):
             for node_type in (18, 0, 99):
                 for senders in ([[0, True]], [[0, True], [1, True]], [["other", True]]):
                     yield {"version": version, "parked": 2, "other_parked": 1, "senders": senders, "node_type": node_type}
+            # the application flagged the sleeping nodes for a reboot (sent when the node next sets a value - no wake or request does that), battery flat / full, a high stored counter
+            for flags in ({"reboot": True}, {"battery_level": 0}, {"battery_level": 100}, {"heartbeat": 99999}, {"reboot": True, "heartbeat": 99999, "battery_level": 1}):
+                for senders in ([[0, True]], [[0, True], [1, True]], [["other", True]], [[3, True], [1, False]]):
+                    yield {"version": version, "parked": 2, "other_parked": 1, "senders": senders, "node_flags": flags}
+                yield {"version": version, "parked": 2, "other_parked": 0, "senders": [[0, True]], "node_flags": flags, "listen_line": "req0"}
             # the counter in the wake lines shrinks, repeats or restarts from one wake to the next (a node that rebooted)
             for counters in ([9, 5, 1], [5, 5, 5], [1, 2, 0], [100, 1], [0, 0], [7, -1]):
                 for senders in ([[0, True]], [[0, True], [1, True]]):
@@ -161,6 +166,7 @@ def strategy(tier: str):
             "listen_line": st.sampled_from(("wake", "wake", "wake", "req0", "req1")),
             "wake_counters": st.sampled_from(([5], [5], [9, 5, 1], [1, 2, 3], [3, 3, 3], [100, 0])),
             "node_type": st.sampled_from((None, None, None, 17, 18, 0)),
+            "node_flags": st.sampled_from((None, None, None, {"reboot": True}, {"battery_level": 0}, {"heartbeat": 99999, "reboot": True})),
         }
     )
 
@@ -241,6 +247,9 @@ async def _run_schedule(case: dict, schedule: list[int]) -> tuple[Outcome | None
     if case.get("node_type") is not None:
         # the sleeping nodes are repeaters, or carry a type no table lists (restored from a file): sleeping is sleeping
         registry = {k: dict(v, node_type=int(case["node_type"])) for k, v in registry.items()}
+    if case.get("node_flags"):
+        # public attributes of the sleeping nodes the application (or a restored file) has set: the reboot request flag, battery level, heartbeat counter
+        registry = {k: dict(v, **case["node_flags"]) for k, v in registry.items()}
     env.install_registry(gateway.nodes, registry)
     sends: list[dict] = []  # {key, value, inv, comp}
     listen_tick: list = [None]
